@@ -7,7 +7,7 @@
    what the harness observes; the theorems below that mention it are statements about that
    description, tied to the library by observation, not by proof. *)
 From FRP Require Import Model.HttpRewrite Proofs.HttpRewriteProofs Model.HttpAdmit Proofs.HttpAdmitProofs
-  gen.GenVhostTransport gen.GenRecycle.
+  gen.GenVhostTransport gen.GenRecycle gen.GenMuxDeadline.
 From Coq Require Import Permutation.
 Open Scope Z_scope.
 
@@ -228,6 +228,40 @@ Theorem C02_deferred_recycle_with_plugin_handoff_refused :
   In [RcAcquire; RcDefer; RcAsync] (rc_paths [RcIf [RcAcquire; RcDefer] false; RcIf [RcAsync] true; RcIf [RcClose] true; RcJoin]).
 Proof. exact rc_defer_with_async_unsafe. Qed.
 Print Assumptions C02_deferred_recycle_with_plugin_handoff_refused.
+
+(* https / tcpmux proxies: vhost.Muxer.handle arms a deadline (30 s in frps) while it sniffs the routing
+   information.  Reflective over the function's deadline statements regenerated by translator unit t9dl on
+   this run: at the hand-over to the proxy BOTH the read and the write deadline are cleared. *)
+Theorem C02_routed_connection_handed_over_without_deadline :
+  mx_handoff_clean gen_mux_handle_ops = true.
+Proof. vm_compute. reflexivity. Qed.
+Print Assumptions C02_routed_connection_handed_over_without_deadline.
+
+(* hence (this theorem uses the previous one): whatever the sniffing timeout, a response of any duration
+   streamed towards the user over the routed connection arrives complete, and requests sent at any age of the
+   connection (keep-alive) are all read *)
+Theorem C02_long_lived_response_not_cut :
+  (forall timeout chunks, mx_deliver_after gen_mux_handle_ops timeout chunks = Some (List.concat (map snd chunks))) /\
+  (forall timeout ages, mx_reads_after gen_mux_handle_ops timeout ages = Some (Z.of_nat (length ages))).
+Proof. exact (mx_clean_transparent gen_mux_handle_ops C02_routed_connection_handed_over_without_deadline). Qed.
+Print Assumptions C02_long_lived_response_not_cut.
+
+(* non-vacuity: clearing only the read deadline is refused; a chunk written after the timeout would be lost *)
+Theorem C02_read_only_clear_would_cut :
+  mx_handoff_clean [MxArm MxBoth; MxClear MxRead; MxHandoff] = false /\
+  mx_deliver_after [MxArm MxBoth; MxClear MxRead; MxHandoff] 30000 [(10, [x61]); (31000, [x62])] = Some [x61].
+Proof. exact mx_read_only_clear_cuts. Qed.
+Print Assumptions C02_read_only_clear_would_cut.
+
+(* "header sets (multi-valued, mixed case, large)": the http.Server that serves vhostHTTPPort carries only
+   reviewed fields (Addr, Handler, ReadHeaderTimeout) — reflective over the literal in server/service.go as
+   regenerated on this run — hence no MaxHeaderBytes, and every request head up to net/http's default
+   (1 MiB + 4096 bytes) is read and handed to the reverse proxy instead of being answered 431 by frps *)
+Theorem C02_large_request_heads_admitted :
+  forall head_bytes, head_bytes <= 1048576 + 4096 ->
+  hsv_head_admitted gen_vhost_server_fields head_bytes = Some true.
+Proof. exact (hsv_literal_ok_sound gen_vhost_server_literals gen_vhost_server_fields (eq_refl true)). Qed.
+Print Assumptions C02_large_request_heads_admitted.
 
 (* hypotheses are satisfiable / the functions compute *)
 Example C02_ex_route : hr_route :=
